@@ -104,6 +104,88 @@ Proof.
   destruct (has "CodeMeaning" a); reflexivity.
 Qed.
 
+(* CodedConcept.from_dataset alone.  A coded concept is COMPLETE when exactly
+   one of the three attributes carries the code value and Code Meaning and
+   Coding Scheme Designator are present - the same two whichever carrier. *)
+Definition complete_attrs (a : attrs) : Prop :=
+  n_carriers a = 1 /\ has "CodeMeaning" a = true /\ has "CodingSchemeDesignator" a = true.
+
+Lemma n_carriers_sum : forall a,
+  n_carriers a = b2z (has "CodeValue" a) + b2z (has "LongCodeValue" a) + b2z (has "URNCodeValue" a).
+Proof. intros a. unfold n_carriers, carriers. cbn [fold_right]. lia. Qed.
+
+Lemma code_accept_spec : forall a,
+  (code_accept (DSet a) = Ok tt <-> complete_attrs a) /\
+  (code_accept (DSet a) = Err EAttr <-> ~ complete_attrs a).
+Proof.
+  intros a. unfold code_accept, complete_attrs.
+  destruct (n_carriers a =? 1) eqn:E; cbn [negb];
+    [apply Z.eqb_eq in E | apply Z.eqb_neq in E];
+    destruct (has "CodeMeaning" a); cbn [negb];
+    destruct (has "CodingSchemeDesignator" a); cbn [negb];
+    (split; split; intros H; try discriminate; try reflexivity;
+     try (repeat split; (assumption || reflexivity));
+     try (intros [H1 [H2 H3]]; (discriminate || contradiction));
+     try (destruct H as [H1 [H2 H3]]; (discriminate || contradiction));
+     try (exfalso; apply H; repeat split; (assumption || reflexivity))).
+Qed.
+
+Lemma code_accept_not_set : forall d, (forall a, d <> DSet a) -> code_accept d = Err EType.
+Proof. intros d H. destruct d; try reflexivity. exfalso. eapply H. reflexivity. Qed.
+
+(* the designator (and the meaning) is required whichever attribute carries
+   the code value: no hypothesis on the carrier at all *)
+Lemma code_accept_needs_designator : forall a,
+  has "CodingSchemeDesignator" a = false -> code_accept (DSet a) = Err EAttr.
+Proof.
+  intros a H. apply code_accept_spec. intros [_ [_ H']]. congruence.
+Qed.
+
+Lemma code_accept_needs_meaning : forall a,
+  has "CodeMeaning" a = false -> code_accept (DSet a) = Err EAttr.
+Proof.
+  intros a H. apply code_accept_spec. intros [_ [H' _]]. congruence.
+Qed.
+
+(* reading the accessors after from_dataset: succeeds only on what
+   from_dataset accepts, and a from_dataset refusal is the error reported *)
+Lemma code_from_accept : forall d c, code_from d = Ok c -> code_accept d = Ok tt.
+Proof.
+  intros d c H. destruct d as [s|l|l|l|items|attrs0]; try discriminate.
+  unfold code_from in H. unfold code_accept. rewrite n_carriers_sum.
+  destruct (b2z (has "CodeValue" attrs0) + b2z (has "LongCodeValue" attrs0) + b2z (has "URNCodeValue" attrs0) =? 1);
+    cbn [negb] in *; [|discriminate].
+  destruct (has "CodeMeaning" attrs0); cbn [negb] in *; [|discriminate].
+  destruct (has "CodingSchemeDesignator" attrs0); cbn [negb] in *; [reflexivity|discriminate].
+Qed.
+
+Lemma code_accept_err_wins : forall d e, code_accept d = Err e -> code_from d = Err e.
+Proof.
+  intros d e H.
+  destruct d as [s|l|l|l|items|attrs0]; try (cbn [code_accept code_from] in *; inversion H; reflexivity).
+  unfold code_accept in H. unfold code_from. rewrite n_carriers_sum in H.
+  destruct (b2z (has "CodeValue" attrs0) + b2z (has "LongCodeValue" attrs0) + b2z (has "URNCodeValue" attrs0) =? 1);
+    cbn [negb] in *; [|inversion H; reflexivity].
+  destruct (has "CodeMeaning" attrs0); cbn [negb] in *; [|inversion H; reflexivity].
+  destruct (has "CodingSchemeDesignator" attrs0); cbn [negb] in *; [discriminate|inversion H; reflexivity].
+Qed.
+
+(* what the constructor writes is complete, whichever carrier it chose *)
+Lemma code_ds_accepted : forall c, code_accept (code_ds c) = Ok tt.
+Proof. intros c. eapply code_from_accept. apply code_roundtrip. Qed.
+
+(* a sequence whose first item is a complete coded concept *)
+Definition complete_concept (s : dval) : Prop :=
+  exists a rest, s = DSeq (DSet a :: rest) /\ complete_attrs a.
+
+Lemma code_first_complete : forall s n, code_first s = Ok n -> complete_concept s.
+Proof.
+  intros s n H. destruct s as [s|l|l|l|items|a0]; try discriminate. destruct items as [|d rest]; [discriminate|].
+  cbn [code_first] in H. pose proof (code_from_accept _ _ H) as Ha.
+  destruct d as [s|l|l|l|items|attrs0]; try discriminate. exists attrs0, rest. split; [reflexivity|].
+  apply code_accept_spec. exact Ha.
+Qed.
+
 (* ---------- flatten / reshape ---------- *)
 Definition rows_nat (k : nat) (pts : list (list Q)) : Prop := Forall (fun r => List.length r = k) pts.
 
